@@ -569,6 +569,42 @@ def r8_retry(ctx, F, only_async=False):
                           "%s::write_all_from must decrease count by the amount each transfer moved (step: %s)" % (tag, t[:160]), loc=b.loc())
 
 
+def r2_exact_loops(ctx, F):
+    """The provided whole-buffer methods of FileReadWriteVolatile (read_exact[_at]_volatile, write_all[_at]_volatile) advance
+    the slice - and, for the positional ones, the file offset - by exactly the amount the last transfer moved."""
+    for nm, op, pos in (("read_exact_volatile", "read_volatile", False), ("write_all_volatile", "write_volatile", False),
+                        ("read_exact_at_volatile", "read_at_volatile", True), ("write_all_at_volatile", "write_at_volatile", True)):
+        b = F.fns.get("common::file_traits::FileReadWriteVolatile::" + nm)
+        if b is None:
+            raise core.Anchor("FileReadWriteVolatile::" + nm)
+        ctx.fn_seen(b)
+        v = vf.VF(b, inline_depth=0, opaque_loops=True)
+        hs = sorted(v.loop_headers())
+        if not ctx.check("R2-copy-loop", nm + "/loop", len(hs) == 1, "%s: %d loops" % (nm, len(hs)), loc=b.loc()):
+            continue
+        call = "FileReadWriteVolatile::%s(self, loop(slice)%s)?" % (op, ", loop(offset)" if pos else "")
+
+        def steps(name):
+            l = [i for i in range(len(b.locals)) if b.local_name(i) == name]
+            if not l:
+                return None
+            init, step = v.loop_def(l[0], hs[0])
+            arms = []
+            for x in step:
+                arms += [a_.rsplit(" => ", 1)[-1].rstrip("}") for a_ in vf.render(x[1], b, short=True, vfx=v).split(" | ")]
+            return [vf.render(x[1], b, short=True, vfx=v) for x in init], sorted(set(arms))
+        sl = steps("slice")
+        ok = sl is not None and sl[0] == ["slice"] and set(sl[1]) <= {"loop(slice)", "Result::unwrap(FileVolatileSlice::offset(loop(slice), %s))" % call} and len(sl[1]) >= 1 \
+            and any("offset(loop(slice)" in a_ for a_ in sl[1])
+        ctx.check("R2-copy-loop", nm + "/slice-advances-by-moved", ok, "%s must advance the slice by what the transfer moved (steps: %s)" % (nm, sl and sl[1]), loc=b.loc())
+        if pos:
+            of = steps("offset")
+            ok = of is not None and of[0] == ["offset"] and set(of[1]) <= {"loop(offset)", "Option::unwrap(impl u64::checked_add(loop(offset), (%s as u64)))" % call,
+                                                                           "Option::unwrap(impl u64::checked_add(loop(offset), %s))" % call} \
+                and any("checked_add(loop(offset)" in a_ for a_ in of[1])
+            ctx.check("R2-copy-loop", nm + "/offset-advances-by-moved", ok, "%s must advance the file offset by what the transfer moved (steps: %s)" % (nm, of and of[1]), loc=b.loc())
+
+
 def r2_fusedev_write(ctx, F):
     """FuseDevWriter's two sync writers: buffered -> every (non-empty) slice is appended to self.buf, unbuffered -> one do_write
     whose result is accounted; the value returned is the number of bytes taken."""
@@ -608,6 +644,7 @@ def r2_fusedev_write(ctx, F):
 
 
 def r2_copy_loop(ctx, F):
+    r2_exact_loops(ctx, F)
     r2_fusedev_write(ctx, F)
     _r2_copy_loop(ctx, F)
 
